@@ -120,6 +120,8 @@ def run(F, R, tier):
         def rewrite(x):
             if x[0] == "/" and x[2] == e_atom:
                 return ("*", rewrite(x[1]), eb_atom)
+            if x[0] == "call" and str(x[1]).split("::")[-1] == "conj" and len(x[2]) == 1 and x[2][0] == e_atom:
+                return eb_atom                       # conj(e^{i delta}) = e^{-i delta} = 1/e^{i delta}
             if x[0] in ("+", "-", "*", "/"):
                 return (x[0], rewrite(x[1]), rewrite(x[2]))
             if x[0] == "neg":
